@@ -101,7 +101,18 @@ def draw_member_write(data, sc, m, base):
         raise ValueError(m.kind)
 
 
-def draw_member_loop(data, sc, members, base):
+def draw_member_loop(data, sc, members, base, cur=False):
+    if cur:
+        # cursor discipline: every member once, in schema order; written through its cursor setter or passed over with skip
+        for i, m in enumerate(members):
+            if data.draw(st.integers(0, 3)) == 0:
+                sc.tok += ["k", str(i)]
+                sc.ops.add("cursor_skip")
+            else:
+                sc.tok += ["f", str(i)]
+                draw_member_write(data, sc, m, base)
+        sc.tok.append("e")
+        return
     if members:
         idxs = data.draw(st.lists(st.integers(0, len(members) - 1), min_size=0, max_size=len(members) + 1))
     else:
@@ -116,10 +127,10 @@ def uint_max(comp_member):
     return prim_range(comp_member.prim)[1]
 
 
-def draw_level(data, sc, L, pos, bl, depth):
+def draw_level(data, sc, L, pos, bl, depth, cur=False):
     """fields/groups/data of one level instance whose block starts at pos with wire block length bl. returns end position"""
     M = sc.M
-    draw_member_loop(data, sc, [m for m in L.fields if not m.is_const], pos)
+    draw_member_loop(data, sc, [m for m in L.fields if not m.is_const], pos, cur=cur)
     pos += bl
     for g in L.groups:
         dim = g.dimension
@@ -144,7 +155,7 @@ def draw_level(data, sc, L, pos, bl, depth):
         pos += dim.size
         for _ in range(n):
             sc.entries += 1
-            pos = draw_level(data, sc, g, pos, gbl, depth + 1)
+            pos = draw_level(data, sc, g, pos, gbl, depth + 1, cur=cur)
     for d in L.data:
         op = data.draw(st.sampled_from(["r", "l", "n", "w", "d", "p", "i"] + (["s"] if d.elem_prim == "char" else [])))
         sc.ops.add("data_" + op)
@@ -181,11 +192,11 @@ def run(t, budget=1.0):
     res = pc.res
     res.rule = ("pool schema x message x in-order encode script (header fill or hand-written blockLength; random subset/order of field setters "
                 "incl. composite members, set-by-choice, array assign/fill/assign_string modes; per group fill_group_header / "
-                "hand-written header + resize; data assign forms) on a generated background buffer; whole buffer must equal the "
+                "hand-written header + resize; data assign forms), executed through named accessors or the documented cursor-based way (cursor setters / skip in schema order, group(c) + cursor_range, data via dont_move + skip; named and by-tag), on a generated background buffer; whole buffer must equal the "
                 "reference overlay; non-trivial = script writes a member at a non-zero offset and (if the message has them) >= 1 "
                 "group entry or non-empty data; distinct by hash of (schema, script)")
     res.assumptions = ["reference overlay model is the trusted SBE layout", "numInGroup <= 3, data <= 12 bytes, images of a few KiB",
-                       "scripts follow the documented in-order discipline"]
+                       "scripts follow the documented in-order discipline; the cursor flavour follows doc/examples.md (every field once in schema order, written or skipped)"]
     if not pc.entries:
         return pc.finish()
 
@@ -211,9 +222,19 @@ def run(t, budget=1.0):
             bl = min(L.block_length + data.draw(st.sampled_from([0, 1, 3])), uint_max(blm))
             sc.tok += ["H", str(bl)]
             M.put_member(sc.buf, 0, blm, bl)
-        end = draw_level(data, sc, L, M.header.size, bl, 0)
+        # flavour: named (random-access) accessors, or the documented cursor-based way of encoding a message
+        # (doc/examples.md: cursor setters in schema order, group(c) + fill_group_header + cursor_range, data through
+        # dont_move + skip), named or by tag
+        flavour = data.draw(st.sampled_from(["encode", "encode", "cencode", "cencodetag"]))
+        cur = flavour.startswith("c")
+        end = draw_level(data, sc, L, M.header.size, bl, 0, cur=cur)
         if end > size:
             return  # cannot happen with the bound above; guard against a harness miscalculation
+        if cur:
+            res.cls("flavour_" + flavour)
+            from vlib.checks import decode_common
+            if decode_common.cursor_end_checkable(L):
+                sc.rets += ["cur=%d" % end, "size_by_cursor=%d" % end]
         res.count()
         key = common.text_hash(entry.dir, str(mi), " ".join(sc.tok), bg)
         nontrivial = sc.deep_writes > 0 and (not (L.groups or L.data) or sc.entries > 0 or sc.data_bytes > 0)
@@ -223,7 +244,7 @@ def run(t, budget=1.0):
             res.cls(o)
         if len(res.samples) < 6 and nontrivial and (len(res.samples) < 2 or res.evaluations % 211 < 9):
             res.sample({"schema": entry.dir.split("/")[-1], "message": L.name, "script": " ".join(sc.tok)[:400], "buffer_len": size})
-        line = "encode %d %s %s" % (mi, bg.hex(), " ".join(sc.tok))
+        line = "%s %d %s %s" % (flavour, mi, bg.hex(), " ".join(sc.tok))
         exp_buf = bytes(sc.buf).hex()
         for cfg in entry.value_configs():
             resp = pc.call(entry, cfg, line)
@@ -235,6 +256,9 @@ def run(t, budget=1.0):
                 i = body_.rfind("BUF ")
                 got_buf = body_[i + 4:].strip()
                 got_rets = body_[:i].split()
+                if cur and not any(r.startswith("cur=") for r in sc.rets):
+                    # a level without any member that could move the cursor: no claim about the final position
+                    got_rets = [r for r in got_rets if not r.startswith(("cur=", "size_by_cursor="))]
                 if got_buf != exp_buf:
                     sig = "encode-buffer-mismatch"
                     diffs = [j for j in range(0, len(exp_buf), 2) if exp_buf[j:j + 2] != got_buf[j:j + 2]]
@@ -263,7 +287,10 @@ def replay(path):
         resp = d.call(case["cmd"])
         d.close()
         i = resp.rfind("BUF ")
-        ok = resp.startswith("OK ") and resp[i + 4:].strip() == case["expected_buffer"] and resp[3:i].split() == case["expected_rets"]
+        rets = resp[3:i].split()
+        if not any(r.startswith("cur=") for r in case["expected_rets"]):
+            rets = [r for r in rets if not r.startswith(("cur=", "size_by_cursor="))]
+        ok = resp.startswith("OK ") and resp[i + 4:].strip() == case["expected_buffer"] and rets == case["expected_rets"]
         print("actual:", resp[:600])
         print("replay:", "holds now" if ok else "STILL FAILS")
         return 0 if ok else 1
